@@ -255,8 +255,36 @@ func runOneMTLS(c mtCaseTLS, base string, idx int, put func(in, obs sx.V)) {
 	for class := 0; class < 5; class++ {
 		rec(mainPath, class, true, attempt(mainSock, class, c.Proto == "grpc", c.Mux))
 	}
-	if c.Proto != "grpc" || c.Mux {
-		return // brokered net/rpc streams and multiplexed gRPC streams live inside the authenticated main connection
+	if c.Proto != "grpc" {
+		return // brokered net/rpc streams live inside the authenticated main connection (TLS is below yamux there)
+	}
+	if c.Mux {
+		// multiplexed gRPC: yamux runs on the raw socket and every stream does its own TLS.  An intruder cannot open a
+		// stream of somebody else's session, so the brokered streams are probed from the inside: the legitimate pair
+		// establishes one in each direction and the serving side reports how it sees the connection
+		gb := caller.GRPC()
+		ok := false
+		if _, err := caller.Call(vp.Req{Op: "accept", ID: 50}); err == nil {
+			if cc, err := gb.Dial(50); err == nil {
+				bc := vp.Bounded(vp.NewGRPCCaller(cc, gb), callBound)
+				if w, e := bc.Call(vp.Req{Op: "who"}); e == nil && w.ID == 50 {
+					if sec, e := bc.Call(vp.Req{Op: "peer-tls"}); e == nil && sec.S == "tls" {
+						ok = true
+					}
+				}
+				cc.Close()
+			}
+		}
+		rec(2, 9, true, ok)
+		go gb.AcceptAndServe(60, func(opts []grpc.ServerOption) *grpc.Server {
+			s := grpc.NewServer(opts...)
+			vp.Register(s, hostWho(60), gb)
+			return s
+		})
+		time.Sleep(100 * time.Millisecond)
+		out, err := caller.Call(vp.Req{Op: "dial", ID: 60, K: "peer-tls"})
+		rec(3, 9, true, err == nil && out.Err == "" && out.ID == 60 && out.S == "tls")
+		return
 	}
 	gb := caller.GRPC()
 	// plugin-side brokered listener
